@@ -61,7 +61,7 @@ def spectrum(rng, d, pattern):
 def required_cells(tier):
     return {"bath:rotated-degenerate": 20, "bath_invariant": 200,
             "method:tempo": 3, "method:pt": 3, "method:meanfield": 2,
-            "meanfield:two-systems": 2,
+            "meanfield:two-systems": 2, "pt:reimported": 2,
             "cov:degenerate": 3}
 
 
@@ -89,7 +89,8 @@ def run_bath(case):
     corr = oqupy.PowerLawSD(0.1, 1.0, 3.0, "gaussian", 0.5)
     violations, cells, sigs = [], [], set()
     n_ok = 0
-    ukinds = ["haar", "real", "perm", "block", "phase", "haar"]
+    ukinds = ["haar", "real", "perm", "block", "phase", "givens_far",
+              "haar"]
     for n in range(40):
         d = int(rng.integers(2, 6))
         pattern = PATTERNS[(case["idx"] * 40 + n) % len(PATTERNS)]
@@ -97,6 +98,12 @@ def run_bath(case):
         o = spectrum(rng, d, pattern)
         v = gen.structured_unitary(rng, d, ukind)
         oper = v @ np.diag(o) @ v.conj().T
+        if n % 13 == 5:
+            # a bath acting on the first of two subsystems: sigma_x/2 (x) 1
+            d, ukind, pattern = 4, "kron", "kron"
+            sx = np.array([[0, 0.5], [0.5, 0]], complex)
+            oper = np.kron(sx, np.eye(2)) * float(rng.uniform(0.5, 2.0))
+            o = np.linalg.eigvalsh(oper)
         oper = (oper + oper.conj().T) / 2
         nondiag = float(np.abs(oper - np.diag(np.diag(oper))).max()) > 1e-8
         degenerate = len(set(np.round(o, 8))) < d
@@ -165,7 +172,8 @@ def run_cov(case):
     epsrel = float(rng.choice([1e-7, 1e-8, 1e-9]))
     unique = bool((i // 3) % 2)
     o, rm, scale = lib.guard_coupling(p, o, dt, nsteps, kmax, tau, rng)
-    w = gen.structured_unitary(rng, d, "haar" if i % 2 else "identity")
+    w = gen.structured_unitary(
+        rng, d, ["identity", "haar", "givens_far", "haar"][i % 4])
     oper = w @ np.diag(o) @ w.conj().T
     oper = (oper + oper.conj().T) / 2
     v = gen.structured_unitary(rng, d, ukind)
@@ -188,9 +196,14 @@ def run_cov(case):
         s_a = oqupy.System(h, g, lop)
         s_b = oqupy.System(rot(h), g, [rot(lop[0])])
         run = lib.run_tempo if method == "tempo" else lib.run_pt
+        kwr = {}
+        if method == "pt" and (i // 3) % 3 == 1:
+            # the rotated process tensor goes through export -> import
+            kwr = {"reimport": ["file", "simple"][(i // 9) % 2]}
+            cells_extra.append("pt:reimported")
         da = run(s_a, oper, corr, rho0, start, dt, nsteps, params, unique)
         db = run(s_b, oper_r, corr, rot(rho0), start, dt, nsteps, params,
-                 unique)
+                 unique, **kwr)
         sa, sb = np.array(da.states), np.array(db.states)
         free = np.array(oqupy.compute_dynamics(
             s_a, rho0, dt=dt, num_steps=nsteps, start_time=start,
